@@ -24,7 +24,7 @@ from gens.jose import ALL_JWS
 from ref import jws as rjws, jwe as rjwe, b64 as rb, keys as rk, selftest
 
 LEVEL = "exploration"
-RULE = ("(a) operations from a pool of 51 (sign/verify HS256 with two different keys, ES256, EdDSA, RS256 compact and JSON, key-set signing "
+RULE = ("(a) operations from a pool of 54 (sign/verify HS256 with two different keys, ES256, EdDSA, RS256 compact and JSON, key-set signing "
         "with random pick, A128KW / ECDH-ES / dir encrypt and decrypt, jwt encode/decode, thumbprint, ensure_kid, KeySet([...]), "
         "KeySet.as_dict, public export, PEM export, per-call allow-lists, caller registries, PBES2 with the right / a wrong password, keys carrying use / key_ops) run pairwise in two threads over shared Key / KeySet / registry objects rebuilt from "
         "stored material for every schedule (lazy initialisation is raced every time); the tracer switches threads only at the "
@@ -79,8 +79,8 @@ def material():
     tok["hs512"] = rjws.make_compact(b'{"alg":"HS512"}', b"payload-512", "HS512", ref["oct1"])
     tok["jwt"] = rjws.make_compact(b'{"alg":"HS256","typ":"JWT"}', b'{"sub":"alice","n":1}', "HS256", ref["oct1"])
 
-    def jwe_tok(alg, keyname, enc="A128GCM"):
-        plan = {"ser": "compact", "enc": enc, "zip": None, "plaintext_hex": b"secret text".hex(), "aad_hex": None, "protected": {"alg": alg, "enc": enc}, "unprotected": None,
+    def jwe_tok(alg, keyname, enc="A128GCM", text=b"secret text"):
+        plan = {"ser": "compact", "enc": enc, "zip": None, "plaintext_hex": text.hex(), "aad_hex": None, "protected": {"alg": alg, "enc": enc}, "unprotected": None,
                 "recipients": [{"alg": alg, "key": gk.key_to_record(ref[keyname]), "header": None, "kid": None}], "sender": None, "place": "protected"}
         return jweplan.ref_encrypt(plan, 7, ("canonical", 0))[0]
     tok["kw"] = jwe_tok("A128KW", "oct16")
@@ -89,6 +89,10 @@ def material():
     tok["pbes2"] = jwe_tok("PBES2-HS256+A128KW", "oct1")
     tok["kw_cbc"] = jwe_tok("A128KW", "oct16", "A128CBC-HS256")
     tok["kw_c20p"] = jwe_tok("A128KW", "oct16", "C20P")
+    # second messages with other content under the same keys: a call that returns the other call's data must be visible
+    tok["kw_b"] = jwe_tok("A128KW", "oct16", "A128GCM", b"another message, longer than the first one")
+    tok["kw_cbc_b"] = jwe_tok("A128KW", "oct16", "A128CBC-HS256", b"another message, longer than the first one")
+    tok["kw_c20p_b"] = jwe_tok("A128KW", "oct16", "C20P", b"another message, longer than the first one")
     M["tok"] = tok
     return M
 
@@ -372,6 +376,21 @@ def op_decrypt_kw_cbc(G):
     return jwe.decrypt_compact(material()["tok"]["kw_cbc"], G.oct16).plaintext.decode()
 
 
+def op_decrypt_kw_b(G):
+    from joserfc import jwe
+    return jwe.decrypt_compact(material()["tok"]["kw_b"], G.oct16).plaintext.decode()
+
+
+def op_decrypt_kw_cbc_b(G):
+    from joserfc import jwe
+    return jwe.decrypt_compact(material()["tok"]["kw_cbc_b"], G.oct16).plaintext.decode()
+
+
+def op_decrypt_kw_c20p_b(G):
+    from joserfc import jwe
+    return jwe.decrypt_compact(material()["tok"]["kw_c20p_b"], G.oct16, algorithms=["A128KW", "C20P"]).plaintext.decode()
+
+
 def op_encrypt_kw_c20p(G):
     from joserfc import jwe
     return _ref_decrypt(jwe.encrypt_compact({"alg": "A128KW", "enc": "C20P"}, b"secret text", G.oct16, algorithms=["A128KW", "C20P"]), "oct16")[:2]
@@ -462,7 +481,7 @@ OPS = {f.__name__[3:]: f for f in [
     op_ensure_kid, op_export_public, op_export_pem, op_encrypt_kw, op_decrypt_kw, op_decrypt_dir, op_encrypt_ecdh, op_decrypt_ecdh, op_jwt_roundtrip,
     op_verify_disallowed, op_verify_ed_allowed, op_verify_hs256_list, op_verify_hs512_under_hs256_list, op_verify_hs512_list, op_sign_es_list,
     op_decrypt_pbes2_right, op_decrypt_pbes2_wrong, op_verify_hs_registry_and_list, op_verify_es_registry, op_encrypt_kw_cbc, op_decrypt_kw_cbc, op_encrypt_kw_c20p,
-    op_decrypt_kw_c20p]}
+    op_decrypt_kw_c20p, op_decrypt_kw_b, op_decrypt_kw_cbc_b, op_decrypt_kw_c20p_b]}
 # shared, lazily initialised objects an operation touches: pairs sharing one get every single-preemption schedule even in the quick tier
 TOUCH = {"sigkey_first_use_sign": {"ec_sig"}, "sigkey_encrypt_refused": {"ec_sig"}, "sigkey_keyset": {"ec_sig"}, "sigkey_export": {"ec_sig"},
          "encrypt_kw_foreign_header": {"A128GCM", "A128KW"}, "read_kid": {"ec", "ed"}, "sign_es": {"ec"}, "verify_es_private_obj": {"ec"}, "keyset_new": {"ec", "ed"}, "keyset_sign_pick": {"ec", "oct2"}, "thumbprint": {"ec", "ed", "oct1"},
@@ -477,13 +496,15 @@ TOUCH = {"sigkey_first_use_sign": {"ec_sig"}, "sigkey_encrypt_refused": {"ec_sig
          "sign_es_list": {"allow-list"}, "decrypt_pbes2_right": {"PBES2"}, "decrypt_pbes2_wrong": {"PBES2"},
          "verify_hs_registry_and_list": {"reg_jws"}, "verify_rs": {"reg_jws"}, "verify_es_registry": {"reg_jws"},
          "encrypt_kw_cbc": {"A128CBC-HS256", "A128KW"}, "decrypt_kw_cbc": {"A128CBC-HS256", "A128KW"},
-         "encrypt_kw_c20p": {"C20P", "A128KW"}, "decrypt_kw_c20p": {"C20P", "A128KW"}}
+         "encrypt_kw_c20p": {"C20P", "A128KW"}, "decrypt_kw_c20p": {"C20P", "A128KW"},
+         "decrypt_kw_b": {"A128GCM", "A128KW"}, "decrypt_kw_cbc_b": {"A128CBC-HS256", "A128KW"}, "decrypt_kw_c20p_b": {"C20P", "A128KW"}}
 CORE = ["sign_hs_k1", "sign_hs_k2", "verify_hs_k1", "verify_hs_wrongkey", "sign_es", "verify_es_private_obj", "keyset_new", "keyset_sign_pick",
         "keyset_verify_kid", "thumbprint", "ensure_kid", "export_public", "encrypt_kw", "decrypt_kw", "encrypt_ecdh", "jwt_roundtrip", "shared_keyset_sign",
         "verify_disallowed", "verify_ed_allowed", "read_kid", "custom_registry_sign", "sign_unregistered_header",
         "encrypt_kw_foreign_header", "sigkey_first_use_sign", "sigkey_encrypt_refused", "sigkey_keyset", "sigkey_export",
         "verify_hs256_list", "verify_hs512_under_hs256_list", "verify_hs512_list", "decrypt_pbes2_right", "decrypt_pbes2_wrong",
-        "verify_hs_registry_and_list", "verify_es_registry", "encrypt_kw_cbc", "decrypt_kw_cbc"]
+        "verify_hs_registry_and_list", "verify_es_registry", "encrypt_kw_cbc", "decrypt_kw_cbc", "decrypt_kw_b", "decrypt_kw_cbc_b",
+        "decrypt_kw_c20p", "decrypt_kw_c20p_b"]
 
 
 def outcome(fn, G):
@@ -768,7 +789,7 @@ def run_shard(ctx, spec):
                     lens[a] = solo_steps(a)
                 la = lens[a]
                 hot = bool(TOUCH.get(a, set()) & TOUCH.get(b, set()))
-                stride = 1 if (hot or not quick) else max(1, la // 6)   # every line for pairs sharing a lazily initialised object (and in thorough)
+                stride = 1 if (hot or not quick) else max(1, la // 3)   # every line for pairs sharing an object (and in thorough); 3-4 preemption points otherwise
                 for i in range(offset % stride, la + 1, stride):
                     sched = [(0, i), (1, None)]
                     f, switched, steps = run_schedule(a, b, sched)
